@@ -600,6 +600,10 @@ def filters(ob, view, vname, ids, stat_arg, values, x, y, field):
         except TypeError:
             exp = "err:type"
         out[m] = view_ids_obs(ob, f"{vname}.filterby", f"wrong-ids-{m}", lambda: view.filterby(stat_arg, val, m), exp, field)
+    # a callable mode `mode(value, val)`, and an unknown mode (ValueError); predicate only
+    view_ids_obs(ob, f"{vname}.filterby", "wrong-ids-callable", lambda: view.filterby(stat_arg, x, lambda v, val: 2 * v >= val + 1),
+                 [i for i in ids if 2 * values[i] >= x + 1], field)
+    view_ids_obs(ob, f"{vname}.filterby", "unknown-mode-accepted", lambda: view.filterby(stat_arg, x, "approx"), "err:value", field)
     return out
 
 
@@ -613,6 +617,9 @@ def attr_filters(ob, view, vname, ids, attrs, P, sp, field):
         except TypeError:
             exp = "err:type"
         out[m] = view_ids_obs(ob, f"{vname}.filterby_attr", f"wrong-ids-{m}", lambda: view.filterby_attr(a, val, m, mi), exp, field)
+    view_ids_obs(ob, f"{vname}.filterby_attr", "wrong-ids-callable", lambda: view.filterby_attr(a, x, lambda v, val: repr(v) >= repr(val), mi),
+                 [i for i in ids if attrs[i].get(a, mi) is not None and repr(attrs[i].get(a, mi)) >= repr(x)], field)
+    view_ids_obs(ob, f"{vname}.filterby_attr", "unknown-mode-accepted", lambda: view.filterby_attr(a, x, "approx", mi), "err:value", field)
     return out
 
 
@@ -1030,7 +1037,7 @@ def run(ctx):
     shrunk = set()
     extra = corpus_cases()
     ctx.stats["corpus_histories"] = len(extra)
-    plan = [("Hypergraph", ctx.n(85, 1400)), ("SimplicialComplex", ctx.n(28, 180)), ("DiHypergraph", ctx.n(42, 650))]
+    plan = [("Hypergraph", ctx.n(70, 1400)), ("SimplicialComplex", ctx.n(22, 180)), ("DiHypergraph", ctx.n(36, 650))]
     results = {}
     for name, n in plan:
         fam = FAMILIES[name]
